@@ -23,10 +23,17 @@ pub fn set_entry(name: &'static str) {
     ENTRY_LEN.store(name.len() as u64, Ordering::SeqCst);
 }
 
+/// Counting is switched on only in worker processes (by `install`): the shared counters are a contention point
+/// for the multi-threaded in-process checks, which do not need an allocation cap.
+pub static COUNTING: AtomicBool = AtomicBool::new(false);
+
 pub struct Counting;
 
 unsafe impl GlobalAlloc for Counting {
     unsafe fn alloc(&self, l: Layout) -> *mut u8 {
+        if !COUNTING.load(Ordering::Relaxed) {
+            return System.alloc(l);
+        }
         let live = LIVE.fetch_add(l.size() as i64, Ordering::Relaxed) + l.size() as i64;
         if live > CAP.load(Ordering::Relaxed) {
             die("alloc-cap", 0);
@@ -37,10 +44,16 @@ unsafe impl GlobalAlloc for Counting {
         System.alloc(l)
     }
     unsafe fn dealloc(&self, p: *mut u8, l: Layout) {
+        if !COUNTING.load(Ordering::Relaxed) {
+            return System.dealloc(p, l);
+        }
         LIVE.fetch_sub(l.size() as i64, Ordering::Relaxed);
         System.dealloc(p, l)
     }
     unsafe fn alloc_zeroed(&self, l: Layout) -> *mut u8 {
+        if !COUNTING.load(Ordering::Relaxed) {
+            return System.alloc_zeroed(l);
+        }
         let live = LIVE.fetch_add(l.size() as i64, Ordering::Relaxed) + l.size() as i64;
         if live > CAP.load(Ordering::Relaxed) {
             die("alloc-cap", 0);
@@ -51,6 +64,9 @@ unsafe impl GlobalAlloc for Counting {
         System.alloc_zeroed(l)
     }
     unsafe fn realloc(&self, p: *mut u8, l: Layout, new: usize) -> *mut u8 {
+        if !COUNTING.load(Ordering::Relaxed) {
+            return System.realloc(p, l, new);
+        }
         let d = new as i64 - l.size() as i64;
         let live = LIVE.fetch_add(d, Ordering::Relaxed) + d;
         if d > 0 && live > CAP.load(Ordering::Relaxed) {
@@ -155,7 +171,9 @@ pub fn install_worker_handlers(alloc_cap_bytes: i64) {
             libc::sigaction(sig, &sa, std::ptr::null_mut());
         }
     }
-    CAP.store(LIVE.load(Ordering::Relaxed) + alloc_cap_bytes, Ordering::Relaxed);
+    LIVE.store(0, Ordering::Relaxed);
+    CAP.store(alloc_cap_bytes, Ordering::Relaxed);
+    COUNTING.store(true, Ordering::SeqCst);
 }
 
 fn process_cpu_ms() -> u64 {
